@@ -217,6 +217,65 @@ def structured_oracle(rng, tier, wdir, viol, stats):
     return cases, nontriv
 
 
+def length_oracle(rng, tier, wdir, viol, stats):
+    """segment LENGTHS interpolate like everything else: a two-coordinate trench with vertical segments whose second segment has a different length (possibly zero)
+    at the two coordinates.  The section weight f at a position is read off the interpolated temperature of the first segment; the feature must then end at depth
+    L1 + (1-f)*La + f*Lb there (a vertical surface: distance along the surface = depth)."""
+    cases = nontriv = 0
+    for wi in range(budget(tier, 10, 80)):
+        fault = wi % 2 == 1
+        az = rng.uniform(0, 2 * math.pi)
+        A = [rng.uniform(-500e3, 500e3), rng.uniform(-500e3, 500e3)]
+        Lt = 800e3
+        B = [A[0] + Lt * math.cos(az), A[1] + Lt * math.sin(az)]
+        nh = [-math.sin(az), math.cos(az)]
+        L1 = rng.choice([150e3, 200e3])
+        La, Lb = rng.choice([(0, 200e3), (200e3, 0), (100e3, 300e3), (0, 120e3), (250e3, 50e3)])
+        T0, T1 = 500.0, 1100.0
+        dk = "fault center" if fault else "slab top"
+        def segs(l2, T):
+            return [{"length": L1, "thickness": [100e3], "angle": [90], "temperature models": [{"model": "uniform", "temperature": T, "max distance " + dk: 500e3}]},
+                    {"length": l2, "thickness": [100e3], "angle": [90], "temperature models": [{"model": "uniform", "temperature": T, "max distance " + dk: 500e3}]}]
+        w = {"version": "1.1", "features": [{"model": "fault" if fault else "subducting plate", "name": "s", "coordinates": [A, B], "dip point": [(A[0] + B[0]) / 2 + nh[0] * 1e5, (A[1] + B[1]) / 2 + nh[1] * 1e5],
+                                             "max depth": 900e3, "segments": segs(La, T0), "sections": [{"coordinate": 1, "segments": segs(Lb, T1)}]}]}
+        path = os.path.join(wdir, "len_%d.wb" % wi)
+        json.dump(w, open(path, "w"))
+        als = [0.03, 0.2, 0.35, 0.5, 0.65, 0.8, 0.97, rng.uniform(0.05, 0.95)]
+        off = 10e3 if fault else -20e3         # inside the thickness (a vertical slab's body lies on the side away from the dip point, beneath its top surface)
+        pts = [[A[0] + (B[0] - A[0]) * al + nh[0] * off, A[1] + (B[1] - A[1]) * al + nh[1] * off] for al in als]
+        rc, out, err = proto.run_harness(["world w %s -" % path] + [q3("w", [p[0], p[1], 1000e3 - 0.5 * L1], 0.5 * L1, [(1, 0, 0), (4, 0, 0)]) for p in pts])
+        if rc != 0 or len(out) != 1 + len(pts) or out[0] != "ok":
+            viol.append({"what": "library failed on a length-interpolation world: rc=%s %s %s" % (rc, out[:1], err[-200:]), "world_json": w, "probe": "crash"}); continue
+        lines, meta = ["world w %s -" % path], []
+        for al, p, o in zip(als, pts, out[1:]):
+            a = parse_answer(o)
+            if a[0] != "ok" or a[1][1] == -1.0:
+                viol.append({"what": "a point inside the first segment (depth %.6g of %.6g, %.0f km from the trench plane) is not inside the feature: %s" % (0.5 * L1, L1, off / 1e3, a), "world_json": w, "world": path}); break
+            f = (a[1][0] - T0) / (T1 - T0)
+            if not (-1e-9 <= f <= 1 + 1e-9):
+                viol.append({"what": "interpolated temperature %.9g is outside [%g, %g]" % (a[1][0], T0, T1), "world_json": w, "world": path}); break
+            Lexp = (1 - f) * La + f * Lb
+            for d, inside in ((L1 + 0.3 * Lexp, True), (L1 + 0.8 * Lexp, True), (L1 + Lexp - 2e3, True), (L1 + Lexp + 2e3, False), (L1 + Lexp + 40e3, False)):
+                if inside and Lexp < 10e3:
+                    continue
+                lines.append(q3("w", [p[0], p[1], 1000e3 - d], d, [(4, 0, 0)])); meta.append((al, f, Lexp, d, inside))
+        rc, out, err = proto.run_harness(lines)
+        if rc != 0 or len(out) != len(lines):
+            viol.append({"what": "library failed: rc=%s %s" % (rc, err[-200:]), "world_json": w, "probe": "crash"}); continue
+        for (al, f, Lexp, d, inside), o, cmd in zip(meta, out[1:], lines[1:]):
+            a = parse_answer(o)
+            cases += 1
+            nontriv += 1 if inside else 0
+            got = a[0] == "ok" and a[1][0] != -1.0
+            if got != inside:
+                viol.append({"what": "%s: at trench fraction %.3f the section weight is %.6f, so the second segment is %.6g m long (%.6g at coordinate 0, %.6g at coordinate 1) and the feature ends at depth %.6g; "
+                                     "depth %.6g is reported %s" % ("fault" if fault else "slab", al, f, Lexp, La, Lb, L1 + Lexp, d, "inside" if got else "outside"),
+                             "world_json": w, "world": path, "cmd": cmd, "probe": "length-interpolation"})
+                break
+    stats["length_interpolation"] = cases
+    return cases, nontriv
+
+
 def oracle(seed, tier):
     rng = random.Random(seed * 5081 + 10)
     decl = json.load(open(proto.schema()[0]))
@@ -224,7 +283,8 @@ def oracle(seed, tier):
     viol, stats = [], {}
     c1, n1 = relayout_oracle(rng, decl, tier, wdir, viol, stats)
     c2, n2 = structured_oracle(rng, tier, wdir, viol, stats)
-    return {"violations": trim_violations(viol, 20), "summary": {"cases": c1 + c2, "violations": len(viol), "nontrivial": n1 + n2, "checks": stats},
+    c3, n3 = length_oracle(rng, tier, wdir, viol, stats)
+    return {"violations": trim_violations(viol, 20), "summary": {"cases": c1 + c2 + c3, "violations": len(viol), "nontrivial": n1 + n2 + n3, "checks": stats},
             "samples": [{"relayouts": ["explicit-models", "repeat-default-section", "both"], "structured": "straight trench, one section per coordinate, one overridden"}]}
 
 
